@@ -37,3 +37,50 @@ Proof.
   intros H N1 N2 D E. apply NormalizeP4h.normalize_output_is_sequential. rewrite E.
   exact (proj2 (SchedP7.exec_satisfies_contract cf ls s tr H N1 N2) D).
 Qed.
+
+(* ------------------------------------------------------------------------------------------------------------
+   From the scheduler to the reports and the verdict: what the statistics and report writers BEHIND Normalize say
+   about a complete run of the scheduler model is what the run's own stream contains.
+   ------------------------------------------------------------------------------------------------------------ *)
+From CV Require Proofs.ReportersP5 Proofs.PipelineP2 Proofs.StatsP Proofs.StatsP3.
+From CV Require Model.Reporters Model.ReportersSpec Model.Pipeline Model.Stats Model.StatsSpec.
+
+Lemma runner_stream_contract cf ls s tr :
+  Sched.exec cf ls = Some (s, tr) -> NoDup (SchedP7.feature_ids ls) -> NoDup (SchedP4.inserted_ids ls) ->
+  Sched.pc s = Sched.Done -> contract tr = true.
+Proof. intros H N1 N2 D. exact (proj2 (SchedP7.exec_satisfies_contract cf ls s tr H N1 N2) D). Qed.
+
+(* the terminal listing of every complete run states exactly the step results, failed hooks and parser errors of the
+   run's stream — whatever the interleaving *)
+Theorem runner_to_terminal_report cf ls s tr (es : list mev) :
+  Sched.exec cf ls = Some (s, tr) -> NoDup (SchedP7.feature_ids ls) -> NoDup (SchedP4.inserted_ids ls) ->
+  Sched.pc s = Sched.Done -> map snd es = tr ->
+  ReportersSpec.c14_basic_ok tr (Reporters.basic_lines (ReportersP5.ns_of es)) = true.
+Proof.
+  intros H N1 N2 D E. pose proof (runner_stream_contract cf ls s tr H N1 N2 D) as C. rewrite <- E in *.
+  exact (ReportersP5.C14_basic_end_to_end es C).
+Qed.
+
+(* the verdict of the default pipeline Normalize<Summarize<..>> over every complete run is the specified one *)
+Theorem runner_to_verdict tags_of last_own q cf ls s tr (es : list mev) :
+  Sched.exec cf ls = Some (s, tr) -> NoDup (SchedP7.feature_ids ls) -> NoDup (SchedP4.inserted_ids ls) ->
+  Sched.pc s = Sched.Done -> map snd es = tr ->
+  StatsSpec.k_hook_in_retried (StatsSpec.before_finished tr) = false ->
+  Pipeline.qfailed (Pipeline.QNorm (Pipeline.QSumm q))
+                   (Pipeline.qfinal tags_of last_own (Pipeline.QNorm (Pipeline.QSumm q)) es)
+  = StatsSpec.spec_failed tr.
+Proof.
+  intros H N1 N2 D E K. pose proof (runner_stream_contract cf ls s tr H N1 N2 D) as C. rewrite <- E in *.
+  exact (PipelineP2.verdict_default_pipeline tags_of last_own q es C K).
+Qed.
+
+(* the eight stateless numbers of the summary of every complete run are the counts of the run's stream *)
+Theorem runner_to_summary_core tags_of last_own q cf ls s tr (es : list mev) :
+  Sched.exec cf ls = Some (s, tr) -> NoDup (SchedP7.feature_ids ls) -> NoDup (SchedP4.inserted_ids ls) ->
+  Sched.pc s = Sched.Done -> map snd es = tr ->
+  StatsP.core_of (StatsP3.summ_behind_norm (Pipeline.qfinal tags_of last_own (Pipeline.QNorm (Pipeline.QSumm q)) es))
+  = StatsP.core_count (StatsSpec.before_finished tr).
+Proof.
+  intros H N1 N2 D E. pose proof (runner_stream_contract cf ls s tr H N1 N2 D) as C. rewrite <- E in *.
+  exact (StatsP3.summary_core_behind_normalize tags_of last_own q es C).
+Qed.
